@@ -228,10 +228,73 @@ def run_race(ctx):
     c13_pilot_death.run_race(ctx)
 
 
+# ------------------------------------------------------------------------------
+# callbacks which change the callback registry while they are being notified
+# (a one-shot callback unregisters itself, a callback registers another one):
+# the other observers still see every announcement
+#
+def run_callback_mutation(ctx):
+    notes = [(u, s) for u in ('t1', 't2')
+                    for s in (rps.AGENT_EXECUTING, rps.DONE, rps.FAILED)]
+    n = 0
+    for scope in ('tmgr', 'task', 'both'):
+        for action in ('unregister-self', 'register-other', 'unregister-all'):
+            for batch in itertools.product(notes, repeat=2):
+                n += 1
+                w   = World()
+                obs = list()
+                w.tm.register_callback(lambda t, s: obs.append((t.uid, s)))
+                late = list()
+
+                def mutate(t, s, scope_=None):
+                    if mutate.done:
+                        return
+                    mutate.done = True
+                    if action == 'unregister-self':
+                        if scope_ == 'tmgr':
+                            w.tm.unregister_callback(mutate_tm)
+                        else:
+                            w.tm.unregister_callback(mutate_t1, uid='t1')
+                    elif action == 'register-other':
+                        w.tm.register_callback(
+                            lambda t_, s_: late.append((t_.uid, s_)))
+                    else:
+                        w.tm.unregister_callback(uid='t1')
+                mutate.done = False
+                mutate_tm = lambda t, s: mutate(t, s, 'tmgr')
+                mutate_t1 = lambda t, s: mutate(t, s, 'task')
+                if scope in ('tmgr', 'both'):
+                    w.tm.register_callback(mutate_tm)
+                if scope in ('task', 'both') or action == 'unregister-all':
+                    w.tm.register_callback(mutate_t1, uid='t1')
+                w.tm.register_callback(lambda t, s: obs.append(('#2', t.uid,
+                                                                s)))
+                w.log_all = list()
+                exc = w.apply(batch)
+                _, ann = ref_batch({'t1': rps.NEW, 't2': rps.NEW}, batch)
+                want = sorted((u, s) for u, ss in ann.items() for s in ss)
+                got1 = sorted(x for x in obs if len(x) == 2)
+                got2 = sorted(x[1:] for x in obs if len(x) == 3)
+                if got1 != want or got2 != want or exc is not None:
+                    ctx.violation(
+                        'observer-misses-announcements|TaskManager._task_cb|'
+                        '%s:%s' % (scope, action),
+                        {'what': 'a callback %s (%s level) during '
+                                 'notification of %s: first observer saw %d, '
+                                 'last observer %d of %d announcements; '
+                                 'exception %r' % (action, scope, batch,
+                                                   len(got1), len(got2),
+                                                   len(want), exc)},
+                        {'history': [], 'batch': [list(x) for x in batch]})
+                ctx.outcome(('cbmut', scope, action, len(want)))
+    ctx.cover(evaluations=n, callback_mutation_cases=n)
+
+
 def run(ctx):
     global _blist
     ctx.level = 'model_checking'
     run_race(ctx)
+    run_callback_mutation(ctx)
     max_len   = 2 if ctx.quick else 3
     _blist    = list(batches(max_len))
     chunk     = max(1, len(_blist) // (ctx.workers * 2))
